@@ -10,8 +10,11 @@
   configuration schema puts on the default rule's lists).
 * `createRule`                 — `CreateRule`: proxy mode needs `forward_to`, both pipelines, backtracking
   inheritance, stage-wise fallback to the default rule, "no authenticator".
-* `loadRule`                   — what the rule set loader does before it: `execute` is mandatory (`gt=0`).
+* `loadRule`                   — what the rule set loader does before it: `execute` is mandatory (`gt=0`) for
+  validated documents.
 * `load`                       — a configuration (catalogue, mode, default rule) and one rule definition, end to end.
+* `loadAll`, `loadHistory`     — a history of rules created by one factory.
+* `Listed`, `RawRule`, `RawDefault`, `loadDocuments` — the spellings absent / `null` / list of `execute` and `on_error`.
 
 The mechanism catalogue is abstract: `cat kind id = some accepted` says that a mechanism `id` of that kind exists
 and which `config` overrides (identified by a tag) its `WithConfig` accepts.  Core Lean only.
@@ -67,7 +70,7 @@ structure Mech where
 /-- why a configuration or a rule is refused (the first reason the code runs into) -/
 inductive Reason
   | noForwardTo | emptyExecute | authenticatorAfterOther | handlerAfterFinalizer | unsupportedStep
-  | badCondition | unknownMechanism | badOverride | noAuthenticator | duplicateSteps
+  | badCondition | unknownMechanism | badOverride | noAuthenticator | duplicateSteps | notAList
   deriving DecidableEq, Repr, Inhabited
 
 /-- `cat kind id`: `none` — no such mechanism in the catalogue; `some tags` — it exists and accepts exactly the
@@ -226,9 +229,11 @@ def createRule (cat : Catalogue) (f : Factory) (r : RuleDef) : Except Reason Eff
     if ps.authn.isEmpty then .error .noAuthenticator
     else pure { toPipelines := ps, backtracking := bt, upstream := r.forwardTo }
 
-/-- loading one rule of a rule set: validation of the decoded rule (`execute` has `gt=0`), then `CreateRule` -/
-def loadRule (cat : Catalogue) (f : Factory) (r : RuleDef) : Except Reason Effective :=
-  if r.execute.isEmpty then .error .emptyExecute else createRule cat f r
+/-- Loading one rule of a rule set.  Documents read by the file, endpoint and bucket providers go through the
+rule set validation first (`validated = true`: `execute` has `gt=0`); rule sets taken from kubernetes resources
+(`validated = false`) reach `CreateRule` as decoded — there the API server's schema is in charge. -/
+def loadRule (cat : Catalogue) (validated : Bool) (f : Factory) (r : RuleDef) : Except Reason Effective :=
+  if validated && r.execute.isEmpty then .error .emptyExecute else createRule cat f r
 
 /-- result of loading a configuration together with one rule -/
 inductive Outcome
@@ -237,12 +242,97 @@ inductive Outcome
   | accepted (f : Factory) (e : Effective)
   deriving DecidableEq, Repr, Inhabited
 
-def load (cat : Catalogue) (proxy : Bool) (d : Option DefaultRule) (r : RuleDef) : Outcome :=
+def load (cat : Catalogue) (proxy validated : Bool) (d : Option DefaultRule) (r : RuleDef) : Outcome :=
   match newFactory cat proxy d with
   | .error e => .configRejected e
   | .ok f =>
-    match loadRule cat f r with
+    match loadRule cat validated f r with
     | .error e => .ruleRejected e
     | .ok e => .accepted f e
+
+/-! ## Histories: one factory, many rules
+
+`CreateRule` is a method of the long-lived factory object (pointer receiver).  `createRuleM` is that method with
+the factory *after* the call made explicit; the Go method writes none of the factory's fields, so it hands the
+factory back unchanged.  `loadAll` threads the factory through a sequence of rules the way the rule set processor
+does over the life time of the process. -/
+
+instance {ε α : Type} [DecidableEq ε] [DecidableEq α] : DecidableEq (Except ε α)
+  | .ok a, .ok b => if h : a = b then isTrue (by rw [h]) else isFalse (fun h' => h (Except.ok.inj h'))
+  | .error a, .error b => if h : a = b then isTrue (by rw [h]) else isFalse (fun h' => h (Except.error.inj h'))
+  | .ok _, .error _ => isFalse (fun h => nomatch h)
+  | .error _, .ok _ => isFalse (fun h => nomatch h)
+
+/-- `CreateRule` as a state transition of the factory -/
+def Factory.createRuleM (cat : Catalogue) (validated : Bool) (f : Factory) (r : RuleDef) :
+    Factory × Except Reason Effective :=
+  (f, loadRule cat validated f r)
+
+/-- rules loaded one after the other by the same factory -/
+def loadAll (cat : Catalogue) (validated : Bool) : Factory → List RuleDef → List (Except Reason Effective)
+  | _, [] => []
+  | f, r :: rs =>
+    let step := f.createRuleM cat validated r
+    step.2 :: loadAll cat validated step.1 rs
+
+/-- result of loading a configuration and then a history of rules -/
+inductive HistoryOutcome
+  | configRejected (why : Reason)
+  | loaded (f : Factory) (results : List (Except Reason Effective))
+  deriving DecidableEq, Repr, Inhabited
+
+def loadHistory (cat : Catalogue) (proxy validated : Bool) (d : Option DefaultRule) (rs : List RuleDef) :
+    HistoryOutcome :=
+  match newFactory cat proxy d with
+  | .error e => .configRejected e
+  | .ok f => .loaded f (loadAll cat validated f rs)
+
+/-! ## Spelling of lists
+
+A list-valued key (`execute`, `on_error`) can be absent, `null` or a list, possibly an empty one.  The decoders of
+rule sets (yaml.v3 + mapstructure, encoding/json) turn all three spellings of "nothing" into a slice without
+elements (nil or empty); the configuration schema accepts only an array for the default rule.  Nothing behind the
+decoders may tell the spellings apart. -/
+
+inductive Listed
+  | absent | null | items (steps : List Step)
+  deriving DecidableEq, Repr, Inhabited
+
+def Listed.steps : Listed → List Step
+  | .items l => l
+  | _ => []
+
+/-- a rule as spelled in the rule set document -/
+structure RawRule where
+  backtracking : Option Bool := none
+  forwardTo : Bool := false
+  execute : Listed := .absent
+  onError : Listed := .absent
+  deriving DecidableEq, Repr, Inhabited
+
+/-- decoding of a rule -/
+def RawRule.decode (r : RawRule) : RuleDef := ⟨r.backtracking, r.forwardTo, r.execute.steps, r.onError.steps⟩
+
+/-- the default rule as spelled in the configuration file -/
+structure RawDefault where
+  backtracking : Bool := false
+  execute : Listed := .absent
+  onError : Listed := .absent
+  deriving DecidableEq, Repr, Inhabited
+
+/-- schema validation (`type: array`) and decoding of the default rule -/
+def RawDefault.decode (d : RawDefault) : Except Reason DefaultRule :=
+  if d.execute = .null || d.onError = .null then .error .notAList
+  else .ok ⟨d.backtracking, d.execute.steps, d.onError.steps⟩
+
+/-- a configuration and a history of rules, from the documents -/
+def loadDocuments (cat : Catalogue) (proxy validated : Bool) (d : Option RawDefault) (rs : List RawRule) :
+    HistoryOutcome :=
+  match d with
+  | none => loadHistory cat proxy validated none (rs.map RawRule.decode)
+  | some raw =>
+    match raw.decode with
+    | .error e => .configRejected e
+    | .ok dr => loadHistory cat proxy validated (some dr) (rs.map RawRule.decode)
 
 end Heimdall.Factory
